@@ -224,4 +224,20 @@ PROPS["C13"] = {
         "search_timeout": 45,
     }
 
+PROPS["C14"] = {
+    "modules": ["Hertz.Props.C14"],
+    "rule": "StreamRequestBody on. Exhaustive stop points 0..len+2 x read sizes {1,3,64} for bodies of 0,1,5,17,40 bytes (the last one is chunk payload that "
+            "looks like chunk framing followed by a request), fixed-length and chunked with random chunking, each followed by a pipelined probe request; plus "
+            "random streams of 1..3 requests (bodies up to 65537 bytes, chunked with trailers, malformed, truncated, stalled) x consumption programs "
+            "(read size 1..100000, stop point 0..100000) under random segmentation.",
+    "exhaustive_note": "all stop points of the small bodies are enumerated for both encodings",
+    "level_text": "Lean model of the body stream (prefetch, Read for fixed and chunked bodies, skipRest) inside the keep-alive loop, compared with the real server for every "
+                  "consumption program; theorems for fixed-length bodies and all inputs: bytes read are a prefix of the body, never more than asked, EOF only at the end, and the "
+                  "next request is parsed from exactly the first byte after the body. Spec step: no request is ever taken from body bytes (the embedded '/smuggled' request "
+                  "never reaches a handler), no panic, no hang.",
+    "level_note": _H1_NOTE + " Whether a well-formed unread chunked remainder is drained or the connection closed depends on buffering (both allowed by the property); "
+                  "chunked-body theorems are open and covered per case. 'Reads never block beyond the body' is runtime: a blocked read shows up as HANG.",
+    "assumptions": ["standard transport"],
+}
+
 NOT_CLAIMED = {}
